@@ -18,7 +18,8 @@ RULE = ("each seeded busy scenario (target context with requests awaiting ACK, a
         "empty-ACK timers, unexpired de-duplication entries; a second context in the same process with its own "
         "traffic) is first run without shutdown to collect its event boundaries (every distinct instant at which the "
         "target context sent, received or was called), then re-run once per boundary with Context.shutdown() started "
-        "just before and just after the events of that instant (quick: 10 sampled boundaries per scenario, thorough: all) "
+        "just before the events of that instant (as a task, or with shutdown()'s synchronous part executed in the same loop "
+        "iteration as the instant's datagram deliveries) and just after them (quick: 10 sampled points per scenario, thorough: all) "
         "and drained to quiescence. evaluations counts scenario runs; shutdown_points_enumerated counts the nested runs. "
         "Non-trivial = at least one piece of work was outstanding at the shutdown instant; distinct = distinct hash of "
         "(scenario shape, set of outstanding-work kinds at the shutdown instants).")
@@ -34,7 +35,7 @@ EXPECTED_PROBES = ["awaiting_ack", "awaiting_separate_response", "mid_blockwise"
 
 OTHER_IP = "fd00::3"
 ACTIVITIES = ["t_req_silent", "t_req_acked", "t_backlog", "t_get_big", "t_put_big", "t_observe", "s_req_slow",
-              "s_observe", "s_req_fast", "o_req"]
+              "s_observe", "s_req_fast", "o_req", "t_backlog_acked"]
 
 
 def gen(r, tier):
@@ -46,7 +47,7 @@ def gen(r, tier):
         acts.append({"a": "s_req_slow", "t": 0.1, "d": 0.3})
     acts.append({"a": "o_req", "t": round(r.uniform(0.0, 2.0), 3), "d": 0.2})
     changes = sorted(round(r.uniform(0.5, 3.0), 3) for _ in range(r.randint(0, 4)))
-    return {"acts": acts, "changes": changes, "boundaries": "sample:%d" % (10 if tier == "quick" else 100000),
+    return {"acts": acts, "changes": changes, "boundaries": "sample:%d" % (15 if tier == "quick" else 100000),
             "bseed": r.randrange(1 << 30)}
 
 
@@ -190,6 +191,11 @@ def run_world(scn, shutdown_at, seed):
             elif k == "t_backlog":
                 for j in range(3):
                     t_request(tag + ".%d" % j, Message(code=GET, uri="coap://[%s]/silent?%d" % (peer.addr[0], j)))
+            elif k == "t_backlog_acked":
+                # a queue that moves: each request is acknowledged (empty ACK, with the default network delay) and so
+                # lets the next one out
+                for j in range(3):
+                    t_request(tag + ".%d" % j, Message(code=GET, uri="coap://[%s]/acked?%d" % (peer2.addr[0], j)))
             elif k == "t_get_big":
                 t_request(tag, Message(code=GET, uri="coap://[%s]/big" % OTHER_IP), blockwise=True)
             elif k == "t_put_big":
@@ -244,9 +250,16 @@ def run_world(scn, shutdown_at, seed):
                     # a request submitted after shutdown has returned
                     rec = ttrack.start("after-shutdown", T, Message(code=GET, uri="coap://[%s]/echo" % peer2.addr[0]))
                     rec["submitted_after"] = loop.now
-                loop.create_task(go())
+                if after == 2:
+                    # the synchronous part of shutdown() runs right here, i.e. in the same loop iteration as -- and
+                    # before -- whatever the sockets deliver in this instant (the datagram "was already in the
+                    # socket buffer when shutdown() was called")
+                    keep_tasks.append(asyncio.Task(go(), loop=loop, eager_start=True))
+                else:
+                    loop.create_task(go())
 
-            if after:
+            keep_tasks = []
+            if after == 1:
                 # just after everything that happens in that instant: run as the last simulator event of the instant
                 def arm():
                     loop.call_soon(lambda: loop.call_soon(start_shutdown))
@@ -286,12 +299,15 @@ def execute(sim, scn):
         raise RuntimeError("harness error in baseline: " + base["harness_errors"][0])
     base_exc = [(m, en) for (t, m, en, es) in base["exceptions"]]
     pts = []
+    import sys
     for t in boundaries_of(base):
-        pts.append((t, False))
-        pts.append((t, True))
+        pts.append((t, 0))
+        pts.append((t, 1))
+        if sys.version_info >= (3, 12):
+            pts.append((t, 2))
     sel = scn.get("boundaries", "all")
     if isinstance(sel, list):
-        chosen = [tuple(p) for p in sel]
+        chosen = [(p[0], int(p[1])) for p in sel]
     elif sel == "all":
         chosen = pts
     else:
@@ -317,7 +333,7 @@ def execute(sim, scn):
             n_outstanding += 1
         if sim.violations and isinstance(sel, str):
             # pin the failing point for the replay file
-            sim.scenario_patch = {"boundaries": [[t_sd, after]]}
+            sim.scenario_patch = {"boundaries": [[t_sd, int(after)]]}
             break
     sim.extra_faults = {"shutdown_point": len(chosen)}
     sim.nontrivial = n_outstanding > 0
@@ -329,7 +345,7 @@ def execute(sim, scn):
 def judge(sim, scn, base, base_exc, res, t_sd, after):
     error = res["error"]
     sd = res["sd"]
-    ident = {"shutdown_at": t_sd, "after_events_of_instant": after}
+    ident = {"shutdown_at": t_sd, "phase": ["before", "after", "same-iteration"][int(after)]}
     kinds = set()
     if sd["t_start"] is None:
         return kinds  # the run ended before that instant
